@@ -173,6 +173,27 @@ def _containers(case, ctx):
             return
 
 
+def _copies(case, ctx):
+    """a deep copy of a stream is a stream of its own: it continues like the original would, and neither disturbs the other"""
+    import copy
+    from pydsol.core.streams import MersenneTwister
+    m, ref = MersenneTwister(case["seed"]), MersenneTwister(case["seed"])
+    for _ in range(1 + case["bseed"] % 4):
+        m.next_float(); ref.next_float()
+    c = copy.deepcopy(m)
+    ctx.count("deep_copies")
+    want = [ref.next_float() for _ in range(6)]
+    got_c = [c.next_float() for _ in range(6)]
+    got_m = [m.next_float() for _ in range(6)]
+    if got_c != want or got_m != want:
+        ctx.viol("streams-share-state:deep-copy", {"seed": case["seed"], "copy": got_c[:3], "original": got_m[:3], "expected": want[:3]})
+        return
+    c.reset()
+    first = MersenneTwister(case["seed"])
+    if [c.next_float() for _ in range(3)] != [first.next_float() for _ in range(3)] or m.next_float() != ref.next_float():
+        ctx.viol("streams-share-state:deep-copy", {"seed": case["seed"], "note": "reset of the copy"})
+
+
 def _seedless(case, ctx):
     """a stream created without a seed picks one itself - and is then as reproducible as any other: reset() replays,
     and a second stream created with the seed it reports gives the same sequence"""
@@ -201,6 +222,8 @@ def run_case(case, ctx):
         _containers(case, ctx)
     if case["seed"] % 16 == 1:
         _seedless(case, ctx)
+    if case["seed"] % 5 == 2:
+        _copies(case, ctx)
     a, a2, b = MersenneTwister(seed), MersenneTwister(seed), MersenneTwister(case["bseed"])
     if a.seed() != seed or a.original_seed() != seed:
         ctx.viol("seed-getter-after-construction", {"seed": seed, "got": [a.seed(), a.original_seed()]})
